@@ -118,7 +118,7 @@ unit(K("raw_ops", "raw_ops_sanity_twin", functions=RAW, expect="fail", timeout=9
 # ---- plain cache ----------------------------------------------------------------------------------
 for n in ["plain_get_seq", "plain_get_env", "plain_get_fault", "plain_touch_seq", "plain_touch_env", "plain_touch_fault",
           "plain_set_seq", "plain_put_seq", "plain_set_env", "plain_put_env", "plain_set_fault", "plain_put_fault",
-          "plain_invalid_name_empty", "plain_invalid_name_dot", "plain_invalid_name_slash", "plain_invalid_name_backslash"]:
+          "plain_write_missing_dir_env", "plain_invalid_name_empty", "plain_invalid_name_dot", "plain_invalid_name_slash", "plain_invalid_name_backslash"]:
     mode = "rely environment (any number of peers: rebinding, eviction, mkdir, restamping) between every two calls" if n.endswith("env") else \
         "one injected failure at any call, errno in {EIO,EACCES,ENOSPC,ESTALE,..}" if n.endswith("fault") else "sequential"
     unit(K("plain_ops", n, functions=PLAIN, timeout=3000 if ("set" in n or "put" in n) else 1200, mem_gb=12,
@@ -136,7 +136,7 @@ unit(K("cache_dir_ops", "c02_cleanup_temp_missing_dir", functions=CDIR, timeout=
 for n in ["sharded_get_01", "sharded_get_10", "sharded_touch_01", "sharded_set_absent", "sharded_set_in_secondary", "sharded_set_in_primary_heavy",
           "sharded_put_in_secondary", "sharded_put_absent_heavy", "sharded_set_absent_env", "sharded_put_absent_fault",
           "sharded_write_notrigger", "sharded_invalid_names"]:
-    unit(K("sharded_ops", n, functions=SHARDED, timeout=3600, mem_gb=12,
+    unit(K("sharded_ops", n, functions=SHARDED, timeout=3000, mem_gb=10,
            bounds="3 shards, candidate shards fixed to (0,1)/(1,0) (mapping itself: engine M), each shard dir present/missing, "
                   "key absent / in primary / in secondary, arbitrary load estimates"))
 unit(K("sharded_ops", "c12_new_clamps", functions=["sharded::Cache::new"], bounds="num_shards 0..3, any capacity", timeout=900, rules=None))
@@ -148,10 +148,10 @@ unit(K("sharded_ops", "sharded_ops_sanity_twin", functions=SHARDED, expect="fail
 _root = os.path.dirname(os.path.dirname(os.path.dirname(os.path.abspath(__file__))))
 STACK_NAMES = re.findall(r"stack_harness!\((\w+),", open(os.path.join(_root, "harness", "stack_ops.rs")).read())
 for n in STACK_NAMES:
-    unit(K("stack_ops", n, functions=STACK, timeout=2400, mem_gb=14,
+    unit(K("stack_ops", n, functions=STACK, timeout=2400, mem_gb=10,
            bounds="per level: key absent / value A / value B; populate outcome {value, NotFound, other error}; judge answer any",
            panic_ok=("auto_sync failed, and failure semantics are unclear",) if "fault" in n else ()))
-unit(K("stack_ops", "stack_ops_sanity_twin", functions=STACK, expect="fail", timeout=3600, mem_gb=14))
+unit(K("stack_ops", "stack_ops_sanity_twin", functions=STACK, expect="fail", timeout=2400, mem_gb=10))
 
 unit(K("readonly_ops", "readonly_builder_equiv", functions=["readonly::ReadOnlyCacheBuilder::{new,plain,byte_equality_checker,take,build}"],
        bounds="two plain levels, checker configured or not", timeout=900, rules=None))
@@ -194,10 +194,10 @@ prop("C03", ["raw_insert_or_update_basic", "raw_insert_or_touch_basic", "stack_s
       "stack_gou_w2r1_nock", "stack_gou_w1r1_nosync"],
      outside=["whether the kernel's fsync is durable", "value sizes (content ids)"], assumptions=COMMON_ASSUME)
 prop("C04", ["plain_get_env", "plain_touch_env", "raw_insert_or_touch_basic", "raw_touch_basic", "raw_ops_sanity_twin"],
-     ["plain_put_env", "plain_set_env", "plain_put_seq", "stack_put_w1r1"],
+     ["plain_put_env", "plain_set_env", "plain_put_seq", "stack_put_w1r1", "stack_ensure_w1r0_putonly"],
      outside=["linearizability is decided as a forward simulation per operation (linearization point = the publishing / opening call), not by enumerating histories"],
      assumptions=COMMON_ASSUME + [RELY])
-prop("C05", ["plain_get_env", "plain_touch_env", "raw_apply_update_evict_a_moveback_b", "raw_collect_a_temp", "raw_ops_sanity_twin"],
+prop("C05", ["plain_get_env", "plain_touch_env", "plain_write_missing_dir_env", "raw_apply_update_evict_a_moveback_b", "raw_collect_a_temp", "raw_ops_sanity_twin"],
      ["plain_set_env", "plain_put_env", "sharded_set_absent_env", "raw_collect_ab_sub", "sharded_set_in_secondary"],
      outside=["adversarial deletion of young temp files (excluded by the property)"], assumptions=COMMON_ASSUME + [RELY])
 prop("C06", ["plain_get_env", "plain_touch_env", "plain_ops_sanity_twin"],
@@ -232,10 +232,11 @@ prop("C12", ["c12_mapping", "c12_constants", "c12_new_clamps", "sharded_ops_sani
      assumptions=COMMON_ASSUME + ["z3 and cvc5 agree (both consulted on every obligation)"])
 prop("C13", ["stack_get_w1r1_nock", "stack_touch_w1r2", "stack_set_w0r1", "stack_ops_sanity_twin"],
      ["stack_ensure_w1r1_nock", "stack_gou_w1r1_nock", "stack_gou_w0r1_nock", "stack_gou_w2r1_nock", "stack_set_w1r1", "stack_put_w1r1",
-      "stack_set_temp_w1r1", "stack_put_temp_w2r0", "stack_put_temp_w0r1", "stack_get_w1r2_bytes", "stack_get_w0r2_bytes"],
+      "stack_set_temp_w1r1", "stack_put_temp_w2r0", "stack_put_temp_w0r1", "stack_get_w1r2_bytes", "stack_get_w0r2_bytes", "stack_gou_w1r1_env",
+      "readonly_builder_equiv"],
      outside=["stack shapes other than those listed (writer in {none, plain, sharded} x up to two plain readers)"], assumptions=COMMON_ASSUME)
 prop("C14", ["stack_get_w1r2_bytes", "stack_get_w1r1_nock", "stack_ops_sanity_twin"],
-     ["stack_get_w0r2_bytes", "stack_gou_w1r1_bytes", "stack_gou_w1r1_nock"],
+     ["stack_get_w0r2_bytes", "stack_gou_w1r1_bytes", "stack_gou_w1r1_nock", "stack_gou_w1r0_bytes", "readonly_builder_equiv"],
      outside=["checkers other than none / byte equality (the panicking checker is the same comparison followed by expect())"], assumptions=COMMON_ASSUME)
 prop("C15", ["stack_get_w1r1_nock", "stack_touch_w1r2", "plain_get_seq", "stack_ops_sanity_twin"],
      ["stack_gou_w1r1_nock", "stack_gou_w0r1_nock", "stack_get_w1r2_bytes", "stack_get_w0r2_bytes", "stack_set_w1r1", "sharded_get_01", "plain_invalid_name_dot"],
